@@ -172,12 +172,14 @@ PROPS['C15'] = {
                  'Yabgp.C15_aspath_segments', 'Yabgp.C15_open_capabilities', 'Yabgp.C15_open_parameters',
                  'Yabgp.C15_unknown_capability', 'Yabgp.C15_attr_perm', 'Yabgp.C15_unknown_attr_inserted',
                  'Yabgp.Mp.C15_ipv6_prefixes', 'Yabgp.Mp.C15_labeled', 'Yabgp.Mp.C15_vpn',
-                 'Yabgp.Mp.C15_ipv6_prefixes_concat', 'Yabgp.Mp.C15_labeled_concat', 'Yabgp.Mp.C15_vpn_concat'],
+                 'Yabgp.Mp.C15_ipv6_prefixes_concat', 'Yabgp.Mp.C15_labeled_concat', 'Yabgp.Mp.C15_vpn_concat',
+                 'Yabgp.C15_evpn_routes', 'Yabgp.C15_evpn_unknown_type', 'Yabgp.C15_evpn_entry',
+                 'Yabgp.C15_flowspec_components', 'Yabgp.C15_flowspec_component', 'Yabgp.C15_flowspec_rules'],
     'genagree': ['Yabgp.GenAgree.attr_codes', 'Yabgp.GenAgree.attr_ids', 'Yabgp.GenAgree.capability_codes'],
-    'suites': ['compose', 'refupdate', 'mpnlri'],
+    'suites': ['compose', 'refupdate', 'mpnlri', 'evf'],
     'cannot': 'PARTIAL: proved for IPv4 prefix lists, communities, cluster lists, large communities, AS_PATH/AS4_PATH segments, '
               'OPEN capabilities / optional parameters (for arbitrary capability TLVs), path-attribute order and unknown-attribute '
-              'insertion, IPv6 prefix lists (except the recorded 00 00 finding), labeled and VPN route lists; EVPN, flowspec, extended '
+              'insertion, IPv6 prefix lists (except the recorded 00 00 finding), labeled and VPN route lists, EVPN routes (incl. unknown route types), flowspec rules and components; extended '
               'communities and the BGP-LS / Prefix-SID TLV containers are not in this check yet',
 }
 
@@ -262,7 +264,7 @@ PROPS['C02'] = {
 }
 
 PROPS['C07'] = {
-    'module': 'Yabgp.Props.C07a',
+    'module': 'Yabgp.Props.C07',
     'theorems': ['Yabgp.Mp.C07_reach_roundtrip', 'Yabgp.Mp.C07_unreach_roundtrip',
                  'Yabgp.Mp.C07_ipv6_unicast_reach', 'Yabgp.Mp.C07_ipv6_unicast_unreach',
                  'Yabgp.Mp.C07_labeled_reach', 'Yabgp.Mp.C07_vpn_reach', 'Yabgp.Mp.C07_vpn_unreach',
@@ -271,14 +273,21 @@ PROPS['C07'] = {
                  'Yabgp.Mp.U6Safe_nil_iff', 'Yabgp.Mp.LuOk_iff_space',
                  'Yabgp.Mp.KF_C07_ipv6_two_default_routes', 'Yabgp.Mp.KF_C07_ipv6_unicast_full_false',
                  'Yabgp.Mp.KF_C07_labeled_last_label_zero', 'Yabgp.Mp.KF_C07_labeled_full_false',
-                 'Yabgp.Mp.KF_C07_labeled_unreach_not_decoded', 'Yabgp.Mp.KF_C07_labeled_unreach_constructed'],
+                 'Yabgp.Mp.KF_C07_labeled_unreach_not_decoded', 'Yabgp.Mp.KF_C07_labeled_unreach_constructed',
+                 'Yabgp.C07_evpn_t1', 'Yabgp.C07_evpn_t2', 'Yabgp.C07_evpn_t3', 'Yabgp.C07_evpn_t4', 'Yabgp.C07_evpn_t5',
+                 'Yabgp.C07_evpn_routes', 'Yabgp.C07_evpn_reach', 'Yabgp.C07_evpn_unreach',
+                 'Yabgp.C07_flowspec_operators', 'Yabgp.C07_flowspec_prefix', 'Yabgp.C07_flowspec_rule',
+                 'Yabgp.C07_flowspec_rules', 'Yabgp.C07_flowspec_reach', 'Yabgp.C07_flowspec_unreach',
+                 'Yabgp.KF_flowspec_component_not_encoded'],
     'genagree': ['Yabgp.GenAgree.attr_codes', 'Yabgp.GenAgree.attr_flags', 'Yabgp.GenAgree.update_errors'],
-    'suites': ['mpnlri'],
+    'suites': ['mpnlri', 'evf'],
     'cannot': 'netaddr text <-> integer conversion and the a:b RD text are handled by the canonicaliser (harness/impl_mp.py), '
               'not modelled; AFI/SAFI numbers are tied by the correspondence check only; add-path is modelled on the decode '
               'side but is outside the round trip (the constructors cannot encode a path id); PARTIAL by three recorded known '
-              'findings (IPv6 unicast two trailing ::/0, labeled unicast last label 0, labeled unicast MP_UNREACH not decoded); '
-              'EVPN and flowspec: second half of this check (Props/C07b), pending',
+              'findings (IPv6 unicast two trailing ::/0, labeled unicast last label 0, labeled unicast MP_UNREACH not decoded) and one for '
+              'flowspec (components 9 and 12 are decoded but never encoded); IPv6 and MAC text go through netaddr in the canonicaliser; '
+              'int() of operator texts containing blanks, a sign or an underscore is not modelled; struct.pack(\'!d\') of EVPN type 5 ESI '
+              'numbers >= 2^53 is not modelled (type 5 is outside the property text)',
 }
 
 PROPS['C16'] = {
